@@ -20,6 +20,10 @@ Representation choices
   the theorems for `Defects.none` hold for *every* `pri`, the witnesses for `asImplemented` exhibit one.
 * In-place mutation with early return is modelled declaratively: the items visited before the first
   failing one (`okPrefix`) are updated, the failing one gets its own partial state, the rest is untouched.
+* `Defects.defaultDropAccepted`: `Entity::update` (data_model_parser.rs:1015-1025) asks for a default only when a
+  field goes from nullable to not nullable; a version that REMOVES the default of a not nullable field is
+  accepted, although the rows written before that field existed carry no value for it: they then read null for a
+  not nullable field and no longer pass `validate_json_for_entity` (peers refuse them).
 * `Defects.hashOrderIds`: new fields of an existing entity are numbered in visit order
   (`for field in new_entity.fields { self.insert_field(..) }`, data_model_parser.rs:1038-1051) instead of
   text order. `Defects.partialRefusal`: a refused version leaves the partially updated model in place
@@ -274,16 +278,17 @@ def parse (decal : Nat) (v : Version) : Except Err Model :=
 structure Defects where
   hashOrderIds : Bool
   partialRefusal : Bool
+  defaultDropAccepted : Bool
 deriving Repr, DecidableEq
 
 /-- What /repo does and what the correspondence run validates. Both deviations were found by this check,
     confirmed on the real code (corpus/C15) and fixed in /repo (commits e35fd01 `hashOrderIds`,
     fb21964 `partialRefusal`); the switches are kept so that the witnesses `C15_breaks_*` and the
     regression replays keep describing what a revert of either fix would bring back. -/
-def Defects.asImplemented : Defects := { hashOrderIds := false, partialRefusal := false }
-def Defects.none : Defects := { hashOrderIds := false, partialRefusal := false }
-/-- the code before the two fixes -/
-def Defects.beforeFixes : Defects := { hashOrderIds := true, partialRefusal := true }
+def Defects.asImplemented : Defects := { hashOrderIds := false, partialRefusal := false, defaultDropAccepted := true }
+def Defects.none : Defects := { hashOrderIds := false, partialRefusal := false, defaultDropAccepted := false }
+/-- the code before the fixes -/
+def Defects.beforeFixes : Defects := { hashOrderIds := true, partialRefusal := true, defaultDropAccepted := true }
 
 /-- key of something iterated out of a hash map -/
 inductive Key where
@@ -318,14 +323,17 @@ def firstErr {α : Type} (chk : α → Option Err) : List α → Option Err
     | none => firstErr chk xs
     | some e => some e
 
-/-- the checks of the first loop of `Entity::update` for one existing field -/
-def checkField (f : Field) (nfs : List Field) : Option Err :=
+/-- the checks of the first loop of `Entity::update` for one existing field. A row may lack a value for a field
+    that is nullable or has a default (the field may be younger than the row): such a field must not become
+    "not nullable, no default" — the code only checks the nullable case (`defaultDropAccepted`). -/
+def checkField (d : Defects) (f : Field) (nfs : List Field) : Option Err :=
   match nfs.find? (·.name == f.name) with
   | none => some .missingField
   | some nf =>
     if nf.short != f.short then some .invalidFieldOrdering
     else if nf.ty != f.ty then some .cannotUpdateFieldType
-    else if f.nullable && !nf.nullable && nf.dflt.isNone && !f.ty.isRef then some .missingDefaultValue
+    else if (f.nullable || (!d.defaultDropAccepted && f.dflt.isSome)) && !nf.nullable && nf.dflt.isNone && !f.ty.isRef then
+      some .missingDefaultValue
     else none
 
 def mergeField (f : Field) (nfs : List Field) : Field :=
@@ -349,7 +357,7 @@ def addRemoved (toRemove dropped : List (List String)) : List (List String) :=
 def Entity.update (d : Defects) (pri : List Key) (nsName : String) (old new : Entity) : Entity × Option Err :=
   let key := fun (f : Field) => Key.fld nsName old.name f.name
   let vis := prio pri key old.fields
-  let chk := fun f => checkField f new.fields
+  let chk := fun f => checkField d f new.fields
   let done := okPrefix chk vis
   let fields1 := old.fields.map fun f => if done.any (·.name == f.name) then mergeField f new.fields else f
   let e1 := { old with deprecated := new.deprecated, fields := fields1 }
@@ -447,6 +455,54 @@ def readField (f : Field) (row : Row) : Option String :=
 def read (m : Model) (n e f : String) (row : Row) : Option (Option String) :=
   ((m.findEntity n e).bind (·.findField f)).map (readField · row)
 
+/-! ### conformance of a stored row (`validate_json_for_entity`, data_model_parser.rs:729-870) -/
+
+/-- a row conforms to an entity: every scalar field is either present with a value of its type (`vok`, the
+    per-type value check, is a parameter) or absent while the field is nullable or has a default -/
+def rowConforms (vok : FType → String → Bool) (e : Entity) (row : Row) : Bool :=
+  e.fields.all fun f =>
+    f.ty.isRef ||
+    match row.lookup f.short with
+    | some v => vok f.ty v
+    | none => f.nullable || f.dflt.isSome
+
+/-! ### the reverse table `entities_short` (short name ↦ namespace, entity) -/
+
+abbrev EShort := Option Nat × Nat
+
+/-- the table the model should carry: one entry per entity -/
+def Model.rev (m : Model) : List (EShort × String × String) :=
+  m.nss.flatMap fun n => n.ents.map fun e => (entShort n e, n.name, e.name)
+
+/-- `HashMap::insert` -/
+def revInsert (rev : List (EShort × String × String)) (x : EShort × String × String) : List (EShort × String × String) :=
+  x :: rev.filter fun y => y.1 != x.1
+
+/-- the entities of `m'` that `m` does not have: those `update_with` inserts into `entities_short` -/
+def addedEntities (m m' : Model) : List (EShort × String × String) :=
+  m'.nss.flatMap fun n' => n'.ents.filterMap fun e' =>
+    if (m.findEntity n'.name e'.name).isSome then none else some (entShort n' e', n'.name, e'.name)
+
+/-- the `DataModel` of the code: the namespaces and the separately maintained reverse table -/
+structure DataModel where
+  core : Model
+  rev : List (EShort × String × String)
+deriving Repr, DecidableEq
+
+def DataModel.empty : DataModel := { core := Model.empty, rev := [] }
+
+/-- `update` / `update_system` on the whole structure: the reverse table receives one entry per inserted entity -/
+def DataModel.apply (d : Defects) (pri : List Key) (system : Bool) (dm : DataModel) (v : Version) : DataModel × Option Err :=
+  let r := applyV d pri system dm.core v
+  ({ core := r.1, rev := (addedEntities dm.core r.1).foldl revInsert dm.rev }, r.2)
+
+/-- `name_for(short)` -/
+def DataModel.nameFor (dm : DataModel) (s : EShort) : Option (String × String) := dm.rev.lookup s
+
+/-- every entity is found again through its short name -/
+def DataModel.RevOk (dm : DataModel) : Prop :=
+  ∀ n ∈ dm.core.nss, ∀ e ∈ n.ents, dm.nameFor (entShort n e) = some (n.name, e.name)
+
 /-! ### an instance: stored model, live model, rows (graph_database.rs:899-1060) -/
 
 structure RowRec where
@@ -532,6 +588,18 @@ def Inst.put (s : Inst) (n e : String) (no : Nat) (vals : List (String × DKind 
         match putRow ent vals with
         | .error err => (s, some err)
         | .ok row => ({ s with rows := s.rows ++ [{ no := no, ent := entShort ns ent, vals := row }] }, none)
+
+/-- the entity a stored row belongs to, found through its short name -/
+def Model.entityOfShort (m : Model) (s : EShort) : Option Entity :=
+  m.nss.findSome? fun n => n.ents.find? fun e => entShort n e == s
+
+/-- the row numbers of the stored rows that do not conform to the live model (the check a peer applies to a
+    row it receives), with the reason -/
+def Inst.conf (vok : FType → String → Bool) (s : Inst) : Option (List (Nat × Bool)) :=
+  s.live.map fun m => s.rows.filterMap fun r =>
+    match m.entityOfShort r.ent with
+    | none => some (r.no, false)                 -- unknown short name
+    | some e => if rowConforms vok e r.vals then none else some (r.no, true)
 
 /-- the rows of entity `n.e` with the requested fields, through the live model -/
 def Inst.get (s : Inst) (n e : String) (fs : List String) : Except PutErr (List (Nat × List (String × Option String))) :=
